@@ -23,6 +23,7 @@ type c11Sink struct {
 	Interp bool     `json:"interp,omitempty"` // error detail built by string interpolation (parses at run time)
 	Sleep  int      `json:"sleep,omitempty"`  // sleep(micros) inside the sink (stalled party)
 	Spawn  int      `json:"spawn,omitempty"`  // child events added by the sink (handled by sink sc on other workers)
+	Count  bool     `json:"count,omitempty"`  // the sink increments a global counter inside a mutex block
 }
 
 type c11Event struct {
@@ -72,6 +73,7 @@ func c11Gen(r *simrt.RNG, tier string) interface{} {
 		if r.Bool(0.3) {
 			s.Spawn = 1 + r.Intn(3)
 		}
+		s.Count = r.Bool(0.4)
 		p.Sinks = append(p.Sinks, s)
 	}
 	p.Globals = r.Bool(0.3)
@@ -165,6 +167,7 @@ func c11Program(p *c11Plan) string {
 		// names the sinks use for their own `event` value and `let` locals
 		b.WriteString("event := {\"state\": {\"id\": -1}, \"name\": \"global\"}\nid := -2\nacc := -3\ny := -4\n")
 	}
+	b.WriteString("gcount := 0\nfunc bump() {\n    mutex cm {\n        gcount := gcount + 1\n    }\n}\n")
 	b.WriteString("func shared(x) {\n    let y := x\n    return y\n}\n")
 	for _, s := range p.Sinks {
 		var ks []string
@@ -189,6 +192,9 @@ func c11Program(p *c11Plan) string {
 		}
 		if s.Sleep > 0 {
 			fmt.Fprintf(&b, "    sleep(%d)\n", s.Sleep)
+		}
+		if s.Count {
+			b.WriteString("    bump()\n")
 		}
 		fmt.Fprintf(&b, "    probe(%q, id, acc, event.state.id, event.name)\n", s.Name)
 		fmt.Fprintf(&b, "    if event.state.fail%s {\n", s.Name)
@@ -445,6 +451,21 @@ func c11Run(p *c11Plan) {
 				simrt.Fail("oracle:error-report", sig, "event %d (kind %s): %s", e.ID, e.Kind, strings.Join(diff, "; "))
 			}
 		}
+	}
+	wantCount := 0
+	for _, evs := range p.Clients {
+		for i := range evs {
+			for _, pr := range probes[evs[i].ID] {
+				for _, s := range p.Sinks {
+					if s.Name == pr.sink && s.Count {
+						wantCount++
+					}
+				}
+			}
+		}
+	}
+	if v, _, _ := vs.GetValue("gcount"); fmt.Sprint(v) != fmt.Sprint(float64(wantCount)) {
+		simrt.Fail("oracle:isolation", "global-counter", "global counter incremented inside a mutex block by %d sink invocations is %v", wantCount, v)
 	}
 	simrt.Count("c11_runs_checked")
 	erp.Processor.Finish()
